@@ -27,11 +27,11 @@ int const READS[] = { 65536, 1000 };
 enum Pattern { ONE_WAY, PING_PONG, BOTH_WAYS };
 const char* PAT_NAME[] = { "one-way", "ping-pong", "both-ways" };
 
-struct Pt { int bw, lat, cap, shape, len, wr, rd, pat; };
+struct Pt { int bw, lat, cap, shape, len, wr, rd, pat; int moved = 0; /* 1: the accepted socket is handed over by value and the connecting socket is move-constructed once connected, before any data flows */ };
 
 std::string pt_str(Pt const& p)
 {
-	return fmt("%s bw=%d lat=%lldms cap=%d len=%d write=%d readbuf=%d %s", SHAPE_NAME[p.shape], BWS[p.bw], (long long)(LATS[p.lat] / 1000000), CAPS[p.cap], LENS[p.len], WRITES[p.wr], READS[p.rd], PAT_NAME[p.pat]);
+	return fmt("%s bw=%d lat=%lldms cap=%d len=%d write=%d readbuf=%d %s", SHAPE_NAME[p.shape], BWS[p.bw], (long long)(LATS[p.lat] / 1000000), CAPS[p.cap], LENS[p.len], WRITES[p.wr], READS[p.rd], PAT_NAME[p.pat]) + (p.moved ? " [sockets move-constructed once established]" : "");
 }
 
 inline char pat_byte(int dir, int64_t i) { return char((dir * 131 + i * 7 + (i >> 9) * 13) & 0xff); }
@@ -128,8 +128,9 @@ struct Exec
 		acc.reset(new ip::tcp::acceptor(*nB)); acc->open(ip::tcp::v4()); acc->bind(ip::tcp::endpoint(addr("10.0.1.1"), 6000)); acc->listen();
 		cli.reset(new ip::tcp::socket(*nA)); srv.reset(new ip::tcp::socket(*nB));
 		budget = 40 * uint64_t(LENS[p.len] / 500 + 100) * (p.pat == ONE_WAY ? 1 : 8);
-		acc->async_accept(*srv, [this](error_code const& ec) { tick(); if (ec) { fail("accept: " + ecs(ec)); return; } accepted = true; start(); });
-		cli->async_connect(ip::tcp::endpoint(addr("10.0.1.1"), 6000), [this](error_code const& ec) { tick(); if (ec) { fail("connect: " + ecs(ec)); return; } connected = true; start(); });
+		if (p.moved) acc->async_accept([this](error_code const& ec, ip::tcp::socket s) { tick(); if (ec) { fail("accept: " + ecs(ec)); return; } srv.reset(new ip::tcp::socket(std::move(s))); accepted = true; start(); });
+		else acc->async_accept(*srv, [this](error_code const& ec) { tick(); if (ec) { fail("accept: " + ecs(ec)); return; } accepted = true; start(); });
+		cli->async_connect(ip::tcp::endpoint(addr("10.0.1.1"), 6000), [this](error_code const& ec) { tick(); if (ec) { fail("connect: " + ecs(ec)); return; } if (p.moved) { auto* m = new ip::tcp::socket(std::move(*cli)); cli.reset(m); } connected = true; start(); });
 		try { sim->run(); }
 		catch (abort_execution const& e) { fail(std::string("livelock: ") + e.why); }
 		R.t_end = now_ns();
@@ -175,6 +176,7 @@ struct ProgressEngine : Engine
 			if (!thorough && len == 4 && bw == 1 && lat >= 2) continue; // slowest corner only in the thorough tier
 			if (len == 5 && bw == 1) continue; // 1.5 MB at 5 kB/s: 5 virtual minutes of 1-segment steps, skipped everywhere
 			pts.push_back(Pt{ bw, lat, cap, shape, len, wr, rd, pat });
+			if (wr == 1 && rd == 0 && len >= 2 && len <= 4) { Pt m{ bw, lat, cap, shape, len, wr, rd, pat }; m.moved = 1; pts.push_back(m); } // the same transfer over sockets that were move-constructed once established
 		}
 		return pts.size() + acfgs.size();
 	}
